@@ -6,6 +6,7 @@ from ..viol import Violation, require
 ID = 'C14'
 LEVEL = 'exploration'
 RULE = (
+    'Wide: 300 variables (idempotent re-declaration with separately created equal ints, conflicts, copy_vars, swaps at the bottom, undeclare/declare, pickle into a manager that has the variables), functions evaluated by walking succ. '
     'H: Hypothesis histories over <=6 names: declare (new and existing '
     'mixed), add_var(name[, level]) with level in {own level, next bottom '
     'level, a level used by another variable, a wrong level for an existing '
